@@ -45,7 +45,7 @@ def _grammar_note(cases, i):
     return ""
 
 
-def analyse(r, res, family, op, what):
+def analyse(r, res, family, op, what, with_oracle=True):
     cases, impl, model = res["cases"], res["impl"], res["model"]
     oracle = _oracle(res)
     counters = res["meta"].get("counters", {})
@@ -60,8 +60,9 @@ def analyse(r, res, family, op, what):
     r.obligations.append(("%s %s: %s (%d lines; %s)" % (family, op, what, len(lines),
                           ", ".join("%s %d" % kv for kv in sorted(counters.items()))),
                           not bad and len(lines) > 0, "%d failing" % len(bad)))
-    r.obligations.append(("oracle %s: the independent LALR(1) reference (family lalr) agrees with the implementation on every grammar of this run "
-                          "(support, not proof)" % family, not hits, "%d disagreeing of %d" % (len(hits), len(lines))))
+    if with_oracle:
+        r.obligations.append(("oracle %s: the independent LALR(1) reference (family lalr) agrees with the implementation on every grammar of this run "
+                              "(support, not proof)" % family, not hits, "%d disagreeing of %d" % (len(hits), len(lines))))
     if stray:
         r.obligations.append(("correspondence %s: bookkeeping lines agree" % family, False,
                               "%d mismatches, first: %r" % (len(stray), stray[0][1][:200])))
@@ -88,7 +89,10 @@ def analyse(r, res, family, op, what):
         r.violation("%s-corr" % family, {
             "kind": "validator-rejects-or-correspondence-broken", "family": family, "op": op, "count": len(unconfirmed),
             "first_disagreement": {"grammar": _grammar_note(cases, i)[:4000], "case": c[:20000], "implementation": im[:4000], "model": mo[:4000]},
-            "note": "the independent LALR(1) reference found nothing wrong with this grammar", "names": THEOREM_NOTE,
+            "note": ("the independent LALR(1) reference found nothing wrong with this grammar" if with_oracle else
+                     "this family carries no property oracle: the Lean model of the ConstructLALR worklist and the implementation "
+                     "disagree (e.g. a different processing order only renumbers the states; family conflict validates the result itself)"),
+            "names": THEOREM_NOTE,
             "replay_case_line": c, "replay_family": family}, False)
     r.cov[family + "_counters"] = counters
     return bad, hits
@@ -106,7 +110,7 @@ def run_verdict(r, with_construct=True):
         res2 = r.run_family("construct", n=nc, timeout=7200)
         out["construct"] = analyse(r, res2, "construct", "lr.construct",
                                    "the Lean model of the ConstructLALR worklist produces the states (creation order), items and transitions "
-                                   "of the real ConstructLALR")
+                                   "of the real ConstructLALR", with_oracle=False)
     for a in ASSUMPTIONS:
         if a not in r.assumptions:
             r.assumptions.append(a)
